@@ -144,7 +144,7 @@ def describe(body, e, depth=0):
     """short stable description of a provenance root, used in tables and reports"""
     e = strip_refs(e)
     k = e[0]
-    if depth > 6:
+    if depth > 14:
         return "..."
     if k == "param":
         return "p%d" % e[1]
@@ -152,7 +152,10 @@ def describe(body, e, depth=0):
         return "const:%s" % (e[3] or e[2])
     if k == "call":
         t = body.term(e[1])
-        return "%s(%s)" % (callee_name(t), ", ".join(describe(body, body.origin_operand(a), depth + 1) for a in t["args"]))
+        nm = callee_name(t)
+        if nm in ("core::mem::size_of", "core::mem::align_of"):
+            nm += "::<%s>" % ", ".join(t.get("generic_args", []))
+        return "%s(%s)" % (nm, ", ".join(describe(body, body.origin_operand(a), depth + 1) for a in t["args"]))
     if k == "field" and e[1][0] == "downcast":
         inner = strip_refs(e[1][1])
         if inner[0] == "mem":
